@@ -91,7 +91,8 @@ def checkCert (seed ltpk : Bytes) (p : RT.Proto) (certB : Bytes) : Option String
           if ¬ Ed25519.verify ltpk (RT.deleCtx p ++ deleB) sig then (some "C10: certificate does not verify under the long-term key with the protocol's delegation context", none)
           else if Ed25519.verify ltpk (RT.deleCtx other ++ deleB) sig then (some "C10: certificate verifies under the OTHER protocol's delegation context", none)
           else if pubk.length ≠ 32 ∨ mint.length ≠ 8 ∨ maxt.length ≠ 8 then (some "C10: delegation field lengths", none)
-          else if ¬ (RT.u64le mint = 0 ∧ RT.u64le maxt = 2 ^ 64 - 1) then (some "C10: delegation window does not contain every midpoint", none)
+          else if ¬ (RT.u64le mint ≤ RT.u64le maxt) then (some "C10: delegation window is empty", none)
+          else if ¬ (RT.u64le mint = 0 ∧ RT.u64le maxt = 2 ^ 64 - 1) then (none, some "delegation window differs from the model's [0, 2^64-1] (whether it contains every response midpoint is judged on real responses)")
           else if certB ≠ expectedCert seed p pubk then (none, some "certificate bytes differ from the model's make_cert")
           else (none, none)
         | _, _, _ => (some "C10: DELE lacks PUBK/MINT/MAXT", none)
